@@ -58,7 +58,7 @@ class WalkIter(I.Iter):
         kids = self.w.children(ent[0])
         if self.wd.f.get('sorted'):
             return sorted(kids, key=lambda k: k[0].py() or '')
-        return list(I.unordered(kids))
+        return list(I.unordered(kids, dir_listing=True))
 
     def _yield(self, ent, depth):
         maxd = self.wd.f.get('max_depth')
